@@ -72,7 +72,7 @@ Fixpoint occs (full : bool) (n : node) {struct n} : list occ :=
     ++ (if is_nameable v then inner full v else occs full v)
   | ESub v sl c _ =>
     (if KF_C10_1 n then when_full [(kind_of_ctx c, spell_u n)] else [(kind_of_ctx c, spell_u n)])
-    ++ (if is_nameable v then inner full v else occs full v) ++ when_full (occs full sl)
+    ++ (if is_nameable v then inner full v else occs full v) ++ occs full sl
   | ECall f args kws _ =>
     if is_attr_call n then
       match wellformed_chain n with
@@ -81,7 +81,7 @@ Fixpoint occs (full : bool) (n : node) {struct n} : list occ :=
       end
     else if KF_C10_1 n then when_full (olist args ++ olist kws)
     else [(ACall, without_call_brackets (spell_u n))] ++ olist args ++ olist kws
-         ++ when_full (if is_nameable f then inner full f else occs full f)
+         ++ (if is_nameable f then inner full f else when_full (occs full f))
   | EKw _ v => occs full v
   | EConst _ | ENoKey | SForbidden _ _ => []
   | ESeq _ es _ => olist es
@@ -117,10 +117,12 @@ with inner (full : bool) (v : node) {struct v} : list occ :=
   | EAttr v' _ _ _ | EStar v' _ _ =>
     if is_nameable v' then inner full v' else when_full (occs full v')
   | ESub v' sl _ _ =>
-    (if is_nameable v' then inner full v' else when_full (occs full v')) ++ when_full (occs full sl)
+    (* the index / slice of every subscript on the spine is visited (fix of KF_C01_1) *)
+    (if is_nameable v' then inner full v' else when_full (occs full v')) ++ occs full sl
   | ECall f args kws _ =>
     when_full ((if is_attr_call v || KF_C10_1 v then [] else [(ACall, without_call_brackets (spell_u v))])
-               ++ olist args ++ olist kws ++ (if is_nameable f then inner full f else occs full f))
+               ++ olist args ++ olist kws)
+    ++ (if is_nameable f then inner full f else when_full (occs full f))
   | _ => []
   end.
 
